@@ -14,7 +14,7 @@ PYTHONPATH=/repo/src /venv/bin/python $DEMO > $SCR/demo_orig.log 2>&1; RC0=$?
 PYTHONPATH=$SCR/src /venv/bin/python $DEMO > $SCR/demo_mut.log 2>&1; RC1=$?
 echo "DEMO $NAME: original rc=$RC0 mutated rc=$RC1"
 cd /verif
-PYTHONPATH=$SCR/src ./vcheck $PROP "$@" > $SCR/check.log 2>&1; RC=$?
+VERIF_EVIDENCE_DIR=$SCR/evidence PYTHONPATH=$SCR/src ./vcheck $PROP "$@" > $SCR/check.log 2>&1; RC=$?
 echo "CHECK $NAME $PROP rc=$RC violations=$(grep -c '^VIOLATION' $SCR/check.log) inconclusive=$(grep -c '^INCONCLUSIVE' $SCR/check.log)"
 grep -A1 '^VIOLATION' $SCR/check.log | head -6 | cut -c1-220
 grep '^INCONCLUSIVE' $SCR/check.log | head -3 | cut -c1-220
